@@ -13,6 +13,9 @@ fn main() {
         if gen == "c07" {
             return gens::gen_c07(r);
         }
+        if gen == "c01" {
+            return net::gen_c01(r);
+        }
         let (class, sim) = match gen.as_str() {
             "mix" => gens::gen_mix(r),
             "c09" => gens::gen_c09(r),
